@@ -7,9 +7,9 @@ package main
 import (
 	"fmt"
 	"os"
-	"time"
 	"sort"
 	"strings"
+	"time"
 
 	"github.com/wader/fq/pkg/decode"
 	"github.com/wader/fq/pkg/ranges"
